@@ -12,7 +12,7 @@ MANIFEST = {
  'technique': 'Lean 4 proof (induction over strings) + table extraction + differential correspondence',
  'design_ref': 'DESIGN.md §6 C05',
 }
-THEOREMS = ['C05.unescape_escape', 'C05.parse_format', 'C05.parse_total', 'C05.format_cached', 'C05.tagEscape_table_sep',
+THEOREMS = ['C05.driverParseMsg_total', 'C05.driverParseMsg_str', 'C05.unescape_escape', 'C05.parse_format', 'C05.parse_total', 'C05.format_cached', 'C05.tagEscape_table_sep',
             'C05.hostFields_total', 'C05.parseFull_total', 'C05.wf_of_wfd', 'C05.wfd_of_wf',
             'C05.tagEscape_table_ok']
 TRUSTED = ['Lean 4.33.0 kernel; axioms ⊆ {propext, Classical.choice, Quot.sound}',
@@ -47,6 +47,15 @@ def time_ok(v):
         return True
     except ValueError:
         return False
+
+def resolve_model_parsemsg(out):
+    f = out.split('\t')
+    if f[0] != 'ok':
+        return out
+    need = wire.dec_opt(f[-1])
+    if need is not None and not time_ok(need):
+        return 'none'
+    return '\t'.join(f[:-1])
 
 def resolve_model_parse(out):
     """model output -> expected canonical output, instantiating the strptime parameter"""
@@ -151,6 +160,15 @@ def gen_raw(r):
         return ''.join(line) + r.choice(['', '\r\n', '\n', '\r', '\r\n\r\n'])
     return rng.text(r, 30, nasty=0.5)
 
+def gen_long(r):
+    k = r.randint(0, 2)
+    word = lambda n: ''.join(r.choice('abcdefghij é') for _ in range(n))
+    if k == 0:
+        return ':n!u@h PRIVMSG #c :' + word(r.randint(480, 1500))
+    if k == 1:
+        return '@' + ';'.join('k%d=%s' % (i, word(r.randint(20, 200)).replace(' ', '\\s')) for i in range(r.randint(3, 12))) + ' :n!u@h PRIVMSG #c :' + word(r.randint(1, 300))
+    return '@a=' + 'x' * r.randint(400, 700) + ' TAGMSG #c'
+
 def valid_unicode(s):
     try:
         s.encode('utf-8'); return True
@@ -188,9 +206,48 @@ def explore(ctx, n_wf, n_near, n_raw, n_esc, corpus_lines=()):
             if len(m.args) == 0: t.append('noargs')
         c.tags = tuple(t)
         cases.append(c)
+        if len(seen) < 200:
+            seen.append((line, out))
         lines.append('parse\t' + wire.enc(line))
         pend.append((c, resolve_model_parse))
 
+    def add_parsemsg(line, kind):
+        """drivers.parseMsg: strip, skip blank/malformed, never raise, never truncate"""
+        if not valid_unicode(line):
+            return
+        from supybot import drivers
+        try:
+            m = drivers.parseMsg(line)
+        except Exception as e:
+            out = 'crash\t' + type(e).__name__; m = None
+            ok = False; msg = 'drivers.parseMsg(%r) raised %s' % (line[:200], type(e).__name__)
+        else:
+            ok = True; msg = ''
+            if m is None:
+                out = 'none'
+            else:
+                out = ('ok\t%s\t%s\t%s\t%s\t%s\t%s\t%s\t%s' % (wire.enc(m.prefix), wire.enc(m.command), wire.enc_list(m.args),
+                       enc_tags(m.server_tags), wire.enc(str(m)), wire.enc(m.nick), wire.enc(m.user), wire.enc(m.host)))
+                st = line.strip()
+                want = st if st.endswith('\n') else st + '\n'
+                if str(m) != want:
+                    ok = False; msg = 'parseMsg delivered a message whose text %r... is not the stripped line (len %d vs %d)' % (str(m)[:80], len(str(m)), len(want))
+        c = Case({'op': 'parsemsg', 'line': line}, impl=out, oracle_ok=ok, oracle_msg=msg, kind=kind,
+                 tags=('parsemsg-' + out.split('\t')[0],) + (('long',) if len(line) > 510 else ()))
+        cases.append(c); lines.append('parsemsg\t' + wire.enc(line)); pend.append((c, resolve_model_parsemsg))
+
+    def poke_tags():
+        """what irclib.Irc.takeMsg (label) and callbacks._makeReply (+draft/reply) do: add a tag IN PLACE to
+        a message built earlier.  Messages are values: this must not influence any other message."""
+        if kept:
+            m = r.choice(kept)
+            try:
+                m.server_tags[r.choice(['label', '+draft/reply', 'x'])] = r.choice(['v', 'abc-123'])
+            except Exception:
+                pass
+
+    kept = []
+    seen = []
     def add_fields(pfx, cmd, args, tags, kind):
         if not all(valid_unicode(x) for x in [pfx, cmd] + list(args) + list(tags) + [v for v in tags.values() if v]):
             return
@@ -204,6 +261,10 @@ def explore(ctx, n_wf, n_near, n_raw, n_esc, corpus_lines=()):
                               oracle_ok=False, kind=kind, tags=('construct-crash',),
                               oracle_msg='IrcMsg(prefix=%r, command=%r, ...) raised %s: %s' % (pfx, cmd, type(e).__name__, e)))
             return
+        if len(kept) < 50:
+            kept.append(m)
+        else:
+            kept[r.randrange(50)] = m
         c = Case({'op': 'format', 'prefix': pfx, 'command': cmd, 'args': list(args), 'tags': tags},
                  impl=wire.enc(s), kind=kind, tags=('format', 'nargs%d' % min(len(args), 3)) + (('ftags',) if tags else ()))
         # property oracle (theorem parse_format on the implementation): whenever the Lean predicate
@@ -275,12 +336,35 @@ def explore(ctx, n_wf, n_near, n_raw, n_esc, corpus_lines=()):
             if r.random() < 0.15:
                 i = r.randrange(len(hm)); hm = hm[:i] + r.choice([' ', '\t', '\n', '\xa0', '\x1f']) + hm[i:]
         add_hostmask(hm + r.choice(['', '', '', '\n', '\n\n']))
-    for _ in range(n_wf):
+    for i in range(n_wf):
         add_fields(*gen_wf(r), kind='wf')
+        if i % 7 == 3:
+            poke_tags()
     for _ in range(n_near):
         add_fields(*break_one(r, *gen_wf(r)), kind='near')
-    for _ in range(n_raw):
-        add_parse(gen_raw(r), 'raw')
+    for i in range(n_raw):
+        l = gen_raw(r)
+        add_parse(l, 'raw')
+        if i % 3 == 0:
+            pad = r.choice(['', ' ', '\r\n', ' \t', '\x1f', '\xa0 '])
+            if i % 12 == 0:   # long lines: IRCv3 tags / text may exceed 512
+                l = gen_long(r)
+            add_parsemsg(pad + l + r.choice(['', '\r\n', ' ', '\n ']), 'parsemsg')
+        if i % 11 == 5:
+            try:
+                pm = ircmsgs.IrcMsg(l)
+                kept.append(pm); poke_tags()
+            except Exception:
+                pass
+        if i % 5 == 2 and seen:
+            # a message is determined by its line: parsing an earlier line again, after other messages
+            # were built / tagged in place, must give the same message
+            l0, out0 = r.choice(seen)
+            out1, _ = impl_parse(ircmsgs, l0)
+            same = (out1 == out0)
+            cases.append(Case({'op': 'reparse-later', 'line': l0}, oracle_ok=same, kind='determinism', tags=('reparse-later',),
+                              oracle_msg='' if same else 'the same line %r parsed to two different messages at different times (state leaks between messages): first %s then %s' % (l0, out0, out1)))
+
     for _ in range(n_esc):
         add_esc(''.join(r.choice('ab; \\\r\n:=snr\\\\é中') for _ in range(r.randint(0, 10))))
     return cases, lines, pend
